@@ -36,6 +36,8 @@ OPTS = [
     {'center_extrema': 'trough', 'burst_method': 'amp', 'burst_kwargs': {'amp_threshes': (0.5, 1.5)}, 'threshold_kwargs': {}},
     {'find_extrema_kwargs': {'filter_kwargs': {'n_cycles': 4}, 'boundary': 10}, 'threshold_kwargs': {}},
     {'threshold_kwargs': {}, 'return_samples': False},
+    {'find_extrema_kwargs': {'filter_kwargs': {'n_seconds': 0.3}}, 'threshold_kwargs': {}},       # two option sets that differ only in the
+    {'find_extrema_kwargs': {'filter_kwargs': {'n_seconds': 0.6}}, 'threshold_kwargs': {}},       # filter length given in seconds
 ]
 
 def _rows(seed, n):
@@ -50,7 +52,11 @@ def _rows(seed, n):
 
 def corpus(ctx):
     return [dict(seed=1, n=3, kw='list', oids=[0, 1, 2], n_jobs=2, progress=None, rs=True, delay='reverse', via='func'),
-            dict(seed=5, n=3, kw='shared_nested', oids=[], n_jobs=1, progress=None, rs=True, delay='none', via='func')]
+            dict(seed=5, n=3, kw='shared_nested', oids=[], n_jobs=1, progress=None, rs=True, delay='none', via='func'),
+            # directed: rows whose option sets differ only in the filter length in seconds, handled by ONE worker; references from pristine processes
+            dict(seed=8, n=3, kw='list', oids=[7, 8, 7], n_jobs=1, progress=None, rs=True, delay='none', via='func'),
+            dict(seed=12, n=4, kw='list', oids=[8, 7, 0, 5], n_jobs=1, progress=None, rs=True, delay='none', via='func'),
+            dict(seed=14, n=2, kw='list', oids=[7, 8], n_jobs=2, progress=None, rs=True, delay='reverse', via='object')]
 
 def generate(ctx):
     rng = ctx.rng
@@ -66,9 +72,13 @@ def generate(ctx):
             cases[-1]['via'] = 'func'; cases[-1]['n_jobs'] = int(rng.choice([1, 1, 2]))
     return cases
 
-def _expect(sigs, fs, fr, i, opts, rs):
+def _expect(sigs, fs, fr, i, opts, rs, fresh=False):
     from bycycle.features import compute_features
     o = dict(opts); o.pop('return_samples', None)
+    if fresh:       # the analysis of row i ALONE in a pristine process: nothing an earlier row left behind in module state can agree with it by accident
+        st, r = implutil.pristine('bycycle.features', 'compute_features', np.array(sigs[i]), fs, fr, return_samples=rs, **o)
+        if st != 'ok': raise RuntimeError(r)
+        return r
     return implutil.quiet(compute_features, sigs[i], fs, fr, return_samples=rs, **o)
 
 def evaluate(ctx, cases):
@@ -85,6 +95,8 @@ def evaluate(ctx, cases):
     for k, c in enumerate(cases):
         model, spec = ans[2 * k], ans[2 * k + 1]
         sigs, fs, fr = _rows(c['seed'], c['n'])
+        sigs = implutil.layout_nd(sigs, c['seed'])          # C / Fortran / read-only / strided memory layout
+        if c['seed'] % 5 == 1: sigs = sigs.astype(np.float32)      # single-precision recordings: every row is analysed in ITS OWN precision
         delays = {}
         if c['delay'] == 'reverse':
             delays = {float(sigs[i][0]): 0.02 * (c['n'] - i) for i in range(c['n'])}
@@ -138,7 +150,7 @@ def evaluate(ctx, cases):
                     opts = {'burst_method': 'amp', 'burst_kwargs': {'amp_threshes': (0.5, 1.5)}, 'threshold_kwargs': {'burst_fraction_threshold': 0.8, 'min_n_cycles': 1 + 2 * sid}}
                 else:
                     opts = {} if oid == 0 else OPTS[oid - 1]
-                exp = _expect(sigs, fs, fr, sid, opts, c['rs'])
+                exp = _expect(sigs, fs, fr, sid, opts, c['rs'], fresh=(c['seed'] % 2 == 0))
                 if not res[i].equals(exp):
                     return 'position %d is not the analysis of row %d with option set %d' % (i, sid, oid)
             if models is not None:
